@@ -3,7 +3,7 @@
    All statements are about the model instantiated with the Unicode tables of the Go toolchain
    (Consts.v): go_is_letter, go_is_number, go_to_lower. *)
 From Coq Require Import List Bool NArith.
-From C11 Require Import Model ModelDoc ProofsText ProofsPath ProofsGo.
+From C11 Require Import Model ModelDoc CaseDefs ProofsText ProofsPath ProofsSpec ProofsGo.
 Open Scope N_scope.
 
 (* Lower-casing agrees on both sides for EVERY byte string (valid UTF-8 or not, including runes whose
@@ -235,6 +235,15 @@ Theorem C11_legacy_path_prefix_findable :
             query_finds (lq_kw go_to_lower (cs c) q) toks = true).
 Proof. exact go_legacy_path_consistent. Qed.
 Print Assumptions C11_legacy_path_prefix_findable.
+
+(* The executable field walk the spec checker of the document cases uses (CaseDefs.reach_list) lists only
+   fields that [reach] reaches: what the run checks on the real indexer's output ("every field of the
+   document, every title with a tokenizer: `_exists_:title` is in some meta") is an instance of
+   C11_flatten_findable. *)
+Theorem C11_spec_walk_sound :
+  forall m doc f x, In (f, x) (reach_list m [] doc) -> reach m [] doc f x.
+Proof. exact reach_list_sound_top. Qed.
+Print Assumptions C11_spec_walk_sound.
 
 Example C11_flatten_nonvacuous :
   reach ex_mapping [] ex_doc [111; 46; 120] (Some [65; 98]) /\
